@@ -461,9 +461,20 @@ class Interp:
             if kind == "do":
                 self.ev(body, benv)
             elif kind == "yield":
-                acc.append(self.ev(body, benv))
-                if into is not None and into[0] == "first":
-                    raise _FirstStop()      # `first` is a short-circuiting fold: the loop stops here
+                v = self.ev(body, benv)
+                acc.append(v)
+                if into is not None:
+                    # folds consume elements as they are yielded: a bad element raises right here
+                    if into[0] == "first":
+                        raise _FirstStop()      # `first` is a short-circuiting fold: the loop stops here
+                    if into[0] == "sum" and not is_int(v):
+                        if isinstance(v, (Unknown, Closure, NDict)) or isinstance(v, list):
+                            raise Decline("sum of non-number")
+                        raise builtin_error()
+                    if into[0] in ("max", "min") and len(acc) > 1:
+                        a0 = acc[0]
+                        if not ((is_int(a0) and is_int(v)) or (isinstance(a0, str) and isinstance(v, str))):
+                            raise Decline("max/min of mixed kinds")
             else:
                 k = self.ev(keyexpr, benv)
                 if not (is_int(k) or isinstance(k, str)):
@@ -477,7 +488,7 @@ class Interp:
                     emit(cenv)
                 except ContinueEx as c:
                     if c.n > 0:
-                        raise ContinueEx(c.n - 1)
+                        raise
                     self.note("continue:for")
                 return
             c = clauses[ci]
@@ -525,6 +536,11 @@ class Interp:
             run(0, env)
         except _FirstStop:
             pass
+        except ContinueEx as c:
+            # `break continue` addressed to an enclosing loop: this loop is one level
+            if c.n > 0:
+                raise ContinueEx(c.n - 1)
+            raise Decline("continue raised in a for header")
         except BreakEx as b:
             if b.n > 0:
                 raise BreakEx(b.n - 1, b.value, b.has)
